@@ -224,9 +224,14 @@ def ref_lp(kind, c, t, mhc=None, physical_meat=True, time_limit=60.0):
     Aub, bub = UB.mat(nv)
     Aeq, beq = EQ.mat(nv)
     res = linprog(cost, A_ub=Aub, b_ub=bub, A_eq=Aeq, b_eq=beq, bounds=(0, None), method="highs",
-                  options={"time_limit": time_limit, "presolve": True})
+                  options={"time_limit": time_limit, "presolve": True, "primal_feasibility_tolerance": 1e-10, "dual_feasibility_tolerance": 1e-10})
+    loose = False
+    if res.status != 0:
+        # HiGHS could not reach the tight tolerances: fall back to its defaults (1e-7) and say so
+        res = linprog(cost, A_ub=Aub, b_ub=bub, A_eq=Aeq, b_eq=beq, bounds=(0, None), method="highs", options={"time_limit": time_limit, "presolve": True})
+        loose = True
     out = {"status": int(res.status), "z": (-float(res.fun) if res.status == 0 else None),
-           "n_rows": len(UB.rhs) + len(EQ.rhs), "n_vars": nv, "tight": {}, "message": str(res.message)[:80]}
+           "n_rows": len(UB.rhs) + len(EQ.rhs), "n_vars": nv, "tight": {}, "message": str(res.message)[:80], "loose_tolerances": loose}
     if res.status == 0 and Aub is not None:
         slack = bub - Aub.dot(res.x)
         tight = slack <= 1e-7 * np.maximum(1.0, np.abs(bub))
